@@ -27,6 +27,8 @@ type Harness struct {
 	ThoroughOnly bool
 	QuickOnly bool
 	Configs  []string
+	FreshSolver bool
+	ConfigsQuick []string
 	Doc      string
 }
 
